@@ -102,7 +102,7 @@ theorem wproj_lift (c : Cfg) (wid : Loc → Option Nat) (s : State) (ls ls' : WL
   obtain ⟨hw, hc, hr⟩ := hrel
   cases pc with
   | «at» p =>
-    cases p <;> cases l <;> simp only [wstep] at hl <;> (try split at hl) <;>
+    cases p <;> cases l <;> simp only [wstep] at hl <;> (repeat' split at hl) <;>
       first
       | (simp at hl; done)
       | (exact absurd rfl (hrun _))
@@ -110,7 +110,7 @@ theorem wproj_lift (c : Cfg) (wid : Loc → Option Nat) (s : State) (ls ls' : WL
          simp_all [wL2, Wq.run, step, WRel, WLPc.abs, wObs]
          try (split <;> simp_all [Wq.run, step]))
   | _ =>
-    cases l <;> simp only [wstep] at hl <;> (try split at hl) <;> (try split at hl) <;>
+    cases l <;> simp only [wstep] at hl <;> (repeat' split at hl) <;>
       first
       | (simp at hl; done)
       | (exact absurd rfl (hrun _))
